@@ -56,6 +56,7 @@ def scenarios(tier, seed):
     for m in ["LobattoIIIC2", "BackwardEuler", "CrankNicolson", "RadauIIA3"] + (gen.FIXIMP if thorough else []):
         for (a, b) in ((0.0, 1.0), (1.0, 0.0), (-2.0, -1.0)):
             sc = gen.base(m, a, b, 0.25, problem="stiffroot", y0=[1.0])
+            sc["mayFail"] = True
             scs.append(sc)
     # adaptive families must still obey the clamp clauses
     for m in ["RK45CK", "DOPRI45", "RadauIIA5"]:
